@@ -41,7 +41,8 @@ RULE = ("minimiser: every sequence of 1..L values from {-2, 0, 1, 3.5, 100} "
         "5 (thorough) truths from {+-1, +-2, 0.5, 1e6} with a uniform offset "
         "from {0, +-1, +-10, 50} %, and every sequence of 2 (quick) / <= 3 "
         "(thorough) (truth, offset) pairs with differing offsets, each x "
-        "{mape, bias} x scale {1, -3, 1e-3, 7} x {(n,), (n,1)}; non-trivial = some offset "
+        "{mape, bias} x scale {1, -3, 1e-3, 7} x layouts {both (n,), (n,1), (1,n), (n/2,2); "
+        "prediction (n,1) with truth (n,) and vice versa}; non-trivial = some offset "
         "!= 0. All cases are distinct by construction (products without "
         "repetition).")
 ASSUMPTIONS = [
@@ -60,7 +61,8 @@ ASSUMPTIONS = [
     "wins); they are counted as unspecified_shape_combinations",
     "'p percent too high' means y_pred = y_true * (1 + p/100), the reading "
     "under which the documented bias formula gives +p for negative truths "
-    "too; mape/bias get prediction and truth of the same shape",
+    "too; mape/bias get prediction and truth of the same shape, or one "
+    "of them as (n,) and the other as (n,1)",
 ]
 
 VALUES = (-2.0, 0.0, 1.0, 3.5, 100.0)
